@@ -340,8 +340,8 @@ func (s *projState) judgeReport(res *Result, c *ActCase, ai int, a Act, obs *Obs
 		for _, vd := range p.Vars {
 			found := false
 			for _, l := range strings.Split(obs.Stdout, "\n") {
-				f := strings.Fields(l)
-				if len(f) >= 1 && f[0] == vd.Name && strings.Join(f[1:], " ") == strings.Join(strings.Fields(vd.Args[0]), " ") {
+				f := tableFields(l)
+				if len(f) >= 1 && f[0] == vd.Name && strings.Join(f[1:], " ") == strings.Join(tableFields(vd.Args[0]), " ") {
 					found = true
 				}
 			}
@@ -380,22 +380,20 @@ func (s *projState) judgeReport(res *Result, c *ActCase, ai int, a Act, obs *Obs
 			docs[t.Name] = strings.Join(strings.Fields(t.Doc), " ")
 		}
 		sort.Strings(names)
+		// a task line is a line whose first word is a defined task name; title, header and
+		// separator lines are ignored, and so is table punctuation (the layout is not specified)
 		var gotNames []string
-		lines := strings.Split(obs.Stdout, "\n")
-		start := 0
-		for i, l := range lines {
-			f := strings.Fields(l)
-			if len(f) >= 2 && f[0] == "Name" && f[1] == "Description" {
-				start = i + 1
-			}
-		}
-		for _, l := range lines[start:] {
-			f := strings.Fields(l)
+		for _, l := range strings.Split(obs.Stdout, "\n") {
+			f := tableFields(l)
 			if len(f) == 0 {
 				continue
 			}
+			d, ok := docs[f[0]]
+			if !ok {
+				continue
+			}
 			gotNames = append(gotNames, f[0])
-			if d, ok := docs[f[0]]; ok && strings.Join(f[1:], " ") != d {
+			if strings.Join(f[1:], " ") != d {
 				res.violate("C20", "show-lists-docstrings", sig, "act%d: task %s is listed with description %q, its docstring is %q", ai, f[0], strings.Join(f[1:], " "), d)
 				return true
 			}
@@ -611,6 +609,19 @@ func (actScen) Shrinks(cc any) []any {
 	}
 	if c.Symlink {
 		add(func(n *ActCase) { n.Symlink = false })
+	}
+	return out
+}
+
+// tableFields splits a line of a listing into words, dropping fields that are only
+// table punctuation (column separators, rules).
+func tableFields(l string) []string {
+	var out []string
+	for _, f := range strings.Fields(l) {
+		if strings.Trim(f, "|│─-+:=") == "" && f != "=" {
+			continue
+		}
+		out = append(out, f)
 	}
 	return out
 }
